@@ -212,8 +212,8 @@ def build_task(t):
 def main():
     tier = sys.argv[1] if len(sys.argv) > 1 else "quick"
     ck = Check(PID, tier, "translation_validation")
-    tq = 40.0 if tier == "quick" else 180.0
-    K = 2 if tier == "quick" else 3
+    tq = 40.0 if tier == "quick" else 60.0
+    K = int(os.environ.get("VERIF_K", "2"))   # thorough widens layouts / configurations / programs; VERIF_K=3 is the (slow) deeper row bound
     driver.build()
     path, _ = mir.dump_mir()
     fns = mir.parse_mir(path)
@@ -284,7 +284,9 @@ def main():
         if qi % 3 == 0:
             ck.sample(dict(sql=sql, privacy_unit=pun, params=prm, tau_literal=tau_lit, sigma_literal=sigma_lit, cap="%s %s" % (cap_op, cap_lit), event=ans["ok"]["dp_event_s"].strip()))
     queries, meta = [], {}
-    for res in parallel_build(tasks, build_task):
+    from common import budgeted
+    built, results = budgeted(ck, tasks, build_task, lambda qs: smt.solve_all(qs, tq, workers=14, order=["z3new", "cvc5"], progress=100), tier)
+    for res in built:
         if "unsupported" in res:
             stats["unsupported"][res["unsupported"]] = stats["unsupported"].get(res["unsupported"], 0) + 1
             continue
@@ -301,7 +303,6 @@ def main():
             tau_lemma = "translated"
         except mir.NotTranslatable as ex:
             tau_lemma = "not translatable: %s" % ex
-    results = smt.solve_all(queries, tq, workers=14, order=["z3new", "cvc5"], progress=100)
     ck.count(results)
     n_w = disagreements = 0
     for r in results:
@@ -325,7 +326,7 @@ def main():
     if n_w == 0 and queries:
         ck.inconclusive("no witness is satisfiable: no key can ever be released in the encoding (vacuous)")
     cov = dict(
-        programs=stats["programs"], disagreements_checked=disagreements, refused_by_rewriter=stats["refused"], skipped_unsupported=stats["unsupported"], witnesses_satisfiable=n_w,
+        exploration=getattr(ck, "budget", None), programs=stats["programs"], disagreements_checked=disagreements, refused_by_rewriter=stats["refused"], skipped_unsupported=stats["unsupported"], witnesses_satisfiable=n_w,
         literal_checks=lit_checks, gaussian_tau_from_mir=tau_lemma,
         bounds=dict(rows_per_table=K, Cu="1, 2 (and 5 in thorough)", units="ids 0..5", outside=["more than %d rows per table" % K, "the numerical quality of statrs' inverse_cdf", "whether a SQL engine evaluates a CTE containing RANDOM() once or twice (IR semantics: one node, one draw per row)"]),
         evaluations=len(queries) + len(lit_checks), distinct_nontrivial=len(set(q["script"] for q in queries)) + len(lit_checks),
